@@ -506,8 +506,10 @@ def call(fr, callee, args, ctx):
     if re.match(r'Option::<.*>::cloned', c):
         o = args[0]
         return o if o.variant == 'None' else Enum('Some', [o.f[0].get()], sym_some=o.sym_some)
+    if re.match(r'(std::ops::)?RangeInclusive::<\w+>::new$', c): return (args[0], args[1])
     if c == 'std::ops::RangeInclusive::<u16>::contains::<u16>':
-        lo, hi = args[0].get(); x = args[1].get()
+        rg = args[0].get() if isinstance(args[0], Ref) else args[0]
+        lo, hi = rg; x = args[1].get() if isinstance(args[1], Ref) else args[1]
         return And(UGE(x, lo), ULE(x, hi))
     if c == 'dicom_core::Tag::element': return args[0].f[1]
     if 'impl str>::split_once::<char>' in c:
@@ -587,6 +589,42 @@ def call(fr, callee, args, ctx):
             x = x.get() if isinstance(x, Ref) else x
             if not first: out += list(sep.b)
             out += list(x.b); first = False
+    # ---- generic Option / Result vocabulary (by definition of the std methods)
+    mo = re.match(r'(?:std::option::)?Option::<.*>::(copied|cloned|as_ref|as_deref|take|unwrap|expect|unwrap_or|unwrap_or_default|or|ok_or|is_some_and|map_or|unwrap_or_else|and_then|map|filter|or_else|ok_or_else)(?:::<.*>)?$', c)
+    if mo and isinstance(args[0].get() if isinstance(args[0], Ref) else args[0], Enum):
+        meth = mo.group(1)
+        o = args[0].get() if isinstance(args[0], Ref) else args[0]
+        some = option_is_some(o, ctx)
+        def callc(clo, *a):
+            return run_fn(closure_name(clo), [clo] + list(a), ctx)
+        if meth in ('copied', 'cloned', 'as_deref'):
+            if not some: return Enum('None', [])
+            v = o.f[0]
+            return Enum('Some', [v.get() if isinstance(v, Ref) else v])
+        if meth == 'as_ref':
+            return Enum('Some', [Ref(Cell(o.f[0]))]) if some else Enum('None', [])
+        if meth == 'take':
+            if isinstance(args[0], Ref): args[0].set(Enum('None', []))
+            return Enum('Some', [o.f[0]]) if some else Enum('None', [])
+        if meth in ('unwrap', 'expect'):
+            if not some: raise NotEncodable('reachable panic: unwrap on None')
+            return o.f[0]
+        if meth == 'unwrap_or': return o.f[0] if some else args[1]
+        if meth == 'or': return Enum('Some', [o.f[0]]) if some else args[1]
+        if meth == 'ok_or': return Enum('Ok', [o.f[0]]) if some else Enum('Err', [args[1]])
+        if meth == 'unwrap_or_else': return o.f[0] if some else callc(args[1])
+        if meth == 'or_else': return Enum('Some', [o.f[0]]) if some else callc(args[1])
+        if meth == 'ok_or_else': return Enum('Ok', [o.f[0]]) if some else Enum('Err', [callc(args[1])])
+        if meth == 'and_then': return callc(args[1], o.f[0]) if some else Enum('None', [])
+        if meth == 'map': return Enum('Some', [callc(args[1], o.f[0])]) if some else Enum('None', [])
+        if meth == 'map_or': return callc(args[2], o.f[0]) if some else args[1]
+        if meth == 'is_some_and':
+            if not some: return False
+            r = callc(args[1], o.f[0]); return ctx.branch(r) if not isinstance(r, bool) else r
+        if meth == 'filter':
+            if not some: return Enum('None', [])
+            r = callc(args[1], Ref(Cell(o.f[0]))); keep = ctx.branch(r) if not isinstance(r, bool) else r
+            return Enum('Some', [o.f[0]]) if keep else Enum('None', [])
     if re.match(r'SmallVec::<.*>::len$', c) or re.match(r'Vec::<.*>::len$', c): return len(args[0].get().items)
     if re.match(r'<SmallVec<.*> as Index<usize>>::index', c) or re.match(r'<Vec<.*> as Index<usize>>::index', c):
         return Ref(Cell(args[0].get().items[args[1] if isinstance(args[1], int) else args[1].as_long()]))
